@@ -7,7 +7,10 @@ on the rendered symbol sequence and checks them against the line grammar applied
 split as sshd does (AKMatchesGrammar, AKTypeMatches, KHok, KHaccepts): exhaustively for every options string over
 {a = , " \\ space} up to length 6 (quick: 5) and for the line-level product.  Binding R renders every generated input with real
 keys (8 key types + 8 certificate types) and compares the real parsers' results with the predictions; round trips,
-fingerprints against ssh-keygen -l, keys written by ssh-keygen -t, and a panic exploration on mutated / random inputs."""
+fingerprints against ssh-keygen -l, keys written by ssh-keygen -t, and a panic exploration on mutated / random inputs.
+spec/SSHKeyBlob.tla (+ generated SSHKeyBlob_Keys.tla): the key blob encoder with the width rule of every component,
+evaluated by TLC on a boundary key set (short EC coordinates, mpint top bits, Ed25519 zero bytes, application strings);
+the expected bytes are compared with Marshal, round trips, authorized_keys lines, fingerprints and ssh-keygen."""
 import vlib
 from c38_common import par_tlc, run_harness
 
@@ -20,7 +23,8 @@ def run(ctx):
                 "of a key line; (b) line-level products (6 leads x 13 option strings x separators x declared type {match, other, missing} x blob "
                 "{valid, not base64, base64 of junk, missing} x 6 comment shapes x trailing ws x {none, LF, CRLF, bare CR} x following line) for "
                 "authorized_keys and known_hosts (marker x hosts lists x comment words); each rendered with a key rotating over 16 key / certificate "
-                "types; distinct = distinct (kind, symbol sequence); plus per-type round trips, fingerprints, ssh-keygen keys; exploration inputs "
+                "types; distinct = distinct (kind, symbol sequence); 41 boundary keys (every fixed-width / mpint component at its boundaries) with "
+                "TLC-computed blobs; plus per-type round trips, fingerprints, ssh-keygen keys; exploration inputs "
                 "are counted as trivial")
     ctx.assumptions = [
         "field symbols (type name, base64 blob, comment word, host name) contain none of the bytes that are special to the scanners; the options alphabet is {a = , \" \\ space tab}",
@@ -29,15 +33,42 @@ def run(ctx):
         "the never-panics clause is explored (mutated and random inputs), not proved",
         "trusted: ssh-keygen 9.2 (fingerprints, key files), Go standard library, TLC",
     ]
+    KB = "SSHKeyBlob_MC"
     if ctx.thorough:
         res = par_tlc(ctx, M, [{"cfg": "AuthorizedKeys_T.cfg", "kw": {"workers": 10, "timeout": 3000}},
-                               {"cfg": "AuthorizedKeys_GenT.cfg", "gen": True, "kw": {"timeout": 3000}}])
+                               {"cfg": "AuthorizedKeys_GenT.cfg", "gen": True, "kw": {"timeout": 3000}},
+                               {"cfg": "SSHKeyBlob_MC.cfg", "module": KB, "gen": True, "kw": {"workers": 1}}])
         cases = res["AuthorizedKeys_GenT.cfg"].traces
     else:
         # one run model-checks the invariants and emits the cases (the initial states dominate the cost)
-        r = ctx.tlc_must_hold(M, cfg="AuthorizedKeys_QGen.cfg", workers=1, timeout=1500)
-        ctx.log("TLC AuthorizedKeys_QGen.cfg %d generated %d distinct %.1fs, %d cases emitted" % (r.generated, r.distinct, r.wall, len(r.traces)))
+        res = par_tlc(ctx, M, [{"cfg": "AuthorizedKeys_QGen.cfg", "gen": True, "kw": {"workers": 1, "timeout": 1500}},
+                               {"cfg": "SSHKeyBlob_MC.cfg", "module": KB, "gen": True, "kw": {"workers": 1}}])
+        r = res["AuthorizedKeys_QGen.cfg"]
+        ctx.states += r.distinct
+        ctx.transitions += r.generated
         cases = r.traces
+    # the key blob encoder (spec/SSHKeyBlob.tla) evaluated by TLC on the boundary key set: invariants + expected bytes
+    kb = res["SSHKeyBlob_MC.cfg"]
+    ctx.states += kb.distinct
+    ctx.transitions += kb.generated
+    keycases = kb.traces
+    # vacuity guard: every fixed-width / mpint component must be exercised at its boundaries
+    need = {t: {"shortX", "shortY", "full"} for t in ("ecdsa-sha2-nistp256", "ecdsa-sha2-nistp384", "ecdsa-sha2-nistp521",
+                                                     "sk-ecdsa-sha2-nistp256@openssh.com")}
+    need["ssh-rsa"] = {"nTopSet", "nTopClear", "eTopSet", "e3", "e65537"}
+    need["ssh-dss"] = {"yShort", "yTopSet", "yTopClear", "gShort", "gTopSet", "gTopClear"}
+    need["ssh-ed25519"] = {"lead0", "trail0", "random"}
+    need["sk-ssh-ed25519@openssh.com"] = {"lead0", "trail0", "appEmpty"}
+    have = {}
+    for kc in keycases:
+        have.setdefault(kc["type"], set()).update(kc["classes"])
+    missing = {t: sorted(c - have.get(t, set())) for t, c in need.items() if c - have.get(t, set())}
+    if missing:
+        raise vlib.Infra("boundary key set lacks classes (vacuous width-rule check): %r" % missing)
+    kpath = ctx.tmp("c38_keycases.ndjson")
+    with open(kpath, "w") as fh:
+        for kc in keycases:
+            fh.write(__import__("json").dumps(kc, separators=(",", ":")) + "\n")
     if not cases:
         raise vlib.Infra("generator produced no cases")
     if ctx.replay:
@@ -49,6 +80,10 @@ def run(ctx):
     if not ctx.have("ssh-keygen"):
         ctx.skipped.append("ssh-keygen not installed: fingerprints and ssh-keygen-written keys not compared")
     ctx.log("replaying %d inputs on the real parsers (+ round trips, fingerprints, ssh-keygen keys, exploration)" % len(cases))
-    run_harness(ctx, "c38", "TestC38$", cases=cases)
+    run_harness(ctx, "c38", "TestC38$", cases=cases, env={"VERIF_C38_KEYCASES": kpath})
+    ex = ctx.extra.get("boundary_classes_exercised") or {}
+    notrun = [t + ":" + c for t, cs in need.items() for c in sorted(cs) if not ex.get(t + ":" + c)]
+    if notrun and not ctx.replay:
+        raise vlib.Infra("boundary keys not exercised on the real code (vacuous): %r" % notrun)
     ctx.extra.pop("skipped", None)
     ctx.exhaustive = True
